@@ -119,11 +119,14 @@ def run_scenarios(ctx, scn_path, scns, mode, label):
 def check(ctx):
     ctx.assumptions += ASSUMPTIONS
     ctx.build("c05")
+    # vacuity: every action taken (tiny universe, with -coverage); the real runs go without it
+    # (-coverage slows TLC down several times on this spec)
+    ctx.tlc_mc(MODULE, "MC_OrderBook_actions.cfg", timeout=300)
     if ctx.quick:
-        ctx.tlc_mc(MODULE, "MC_OrderBook.cfg", timeout=600)
+        ctx.tlc_mc(MODULE, "MC_OrderBook.cfg", timeout=600, coverage=False)
     else:
-        ctx.tlc_mc(MODULE, "MC_OrderBook_2sided.cfg", timeout=600)
-        ctx.tlc_mc(MODULE, "MC_OrderBook_thorough.cfg", timeout=1500)
+        ctx.tlc_mc(MODULE, "MC_OrderBook_2sided.cfg", timeout=600, coverage=False)
+        ctx.tlc_mc(MODULE, "MC_OrderBook_thorough.cfg", timeout=1800, coverage=False)
     # (i) every (book, event) transition of the small universe; (ii) simulated behaviours, wider prices
     p_t, scn_t = ctx.tlc_gen("Gen_" + MODULE, "GenT_OrderBook.cfg" if ctx.quick else "GenT_OrderBook_thorough.cfg",
                              "transitions.ndjson", timeout=900)
